@@ -91,6 +91,13 @@ CHECKS = {
             "without mark characters.",
             "Lines containing the configured mark patterns are checked for the permutation property only; direction classes are read "
             "from conf.h of the tree under test.", "3/C18"),
+    "C02": ("exploration", "stateful property-based testing of multi-buffer ex histories with an observation-driven history invariant",
+            "Generated histories over up to 8 files (modifying commands, undo/redo, whole/partial/foreign writes, :e!, :e, :b switches) with "
+            "the buffer list ('*' flags) and the current text observed after every step and a final :q with a sentinel: a buffer whose "
+            "observed text differs from the tracked file content must be flagged and must block :e/:b/:q without '!'; at the saved point it "
+            "must be clean and switching/quitting allowed; no buffer's text may change while it is not current.",
+            "The text is observed, not predicted; a buffer equal to its file only by coincidence may be reported either way; the "
+            "line-buffer half of the dirty flag is covered exhaustively by C04's probe (modified flag after every operation).", "3/C02"),
 }
 
 ALL = ["C%02d" % i for i in range(1, 21)]
